@@ -48,9 +48,28 @@ func c08Prelude() []zn.Stmt {
 				{Name: "自", Body: []zn.Stmt{ret(zn.MCall{Root: this("自身"), Chain: []zn.Call{{Name: "取"}}})}},
 			}},
 		zn.Func{Name: "型", Ctor: true, Params: []string{"初"}, Body: []zn.Stmt{zn.ExprStmt{E: zn.Assign{Target: this("数"), Val: v("初")}}, show(str("建"), v("初"))}},
-		zn.Class{Name: "点", Props: []zn.Prop{{Name: "X", Val: num(0)}}},
+		// a type whose default number is never re-assigned: only changed in place (自增)
+		zn.Class{Name: "点", Props: []zn.Prop{{Name: "X", Val: num(0)}},
+			Methods: []zn.Func{
+				{Name: "升", Body: []zn.Stmt{zn.ExprStmt{E: zn.MCall{Root: this("X"), Chain: []zn.Call{{Name: "自增", Args: []zn.Expr{num(1)}}}}}, ret(this("X"))}},
+			}},
+		// recursion that re-enters ONE call expression with two or more arguments while
+		// its later arguments are still being evaluated
+		zn.Func{Name: "合", Params: []string{"X", "Y"}, Body: []zn.Stmt{ret(bin("+", v("X"), v("Y")))}},
+		zn.Func{Name: "斐", Params: []string{"N"}, Body: []zn.Stmt{
+			zn.If{Cond: bin("<", v("N"), num(2)), Then: []zn.Stmt{ret(v("N"))}},
+			ret(zn.Call{Name: "合", Args: []zn.Expr{zn.Call{Name: "斐", Args: []zn.Expr{bin("-", v("N"), num(1))}}, zn.Call{Name: "斐", Args: []zn.Expr{bin("-", v("N"), num(2))}}}})}},
+		zn.Func{Name: "阿", Params: []string{"M", "N"}, Body: []zn.Stmt{
+			zn.If{Cond: bin("==", v("M"), num(0)), Then: []zn.Stmt{ret(bin("+", v("N"), num(1)))}},
+			zn.If{Cond: bin("==", v("N"), num(0)), Then: []zn.Stmt{ret(zn.Call{Name: "阿", Args: []zn.Expr{bin("-", v("M"), num(1)), num(1)}})}},
+			ret(zn.Call{Name: "阿", Args: []zn.Expr{bin("-", v("M"), num(1)), zn.Call{Name: "阿", Args: []zn.Expr{v("M"), bin("-", v("N"), num(1))}}}})}},
+		zn.Func{Name: "探", Params: []string{"深"}, Body: []zn.Stmt{
+			zn.If{Cond: bin("<=", v("深"), num(0)), Then: []zn.Stmt{ret(num(0))}},
+			ret(bin("+", zn.Call{Name: "记", Args: []zn.Expr{v("深"), zn.Call{Name: "探", Args: []zn.Expr{bin("-", v("深"), num(1))}}}}, v("深")))}},
 		zn.Decl{Pairs: []zn.DeclPair{{Names: []string{"O"}, Val: zn.New{Class: "型", Args: []zn.Expr{num(5)}}}}},
 		zn.Decl{Pairs: []zn.DeclPair{{Names: []string{"P"}, Val: zn.New{Class: "型", Args: []zn.Expr{num(7)}}}}},
+		zn.Decl{Pairs: []zn.DeclPair{{Names: []string{"Q1"}, Val: zn.New{Class: "点"}}}},
+		zn.Decl{Pairs: []zn.DeclPair{{Names: []string{"Q2"}, Val: zn.New{Class: "点"}}}},
 	}
 }
 
@@ -107,6 +126,13 @@ func c08Forms() []c08Form {
 		{"新建型", 1, func(a []zn.Expr) zn.Expr { return zn.Member{Root: zn.New{Class: "型", Args: []zn.Expr{a[0]}}, Name: "数"} }},
 		{"新建型-1", 0, func(a []zn.Expr) zn.Expr { return zn.Member{Root: zn.New{Class: "型"}, Name: "数"} }},
 		{"新建点", 0, func(a []zn.Expr) zn.Expr { return zn.Member{Root: zn.New{Class: "点"}, Name: "X"} }},
+		{"斐6", 0, func(a []zn.Expr) zn.Expr { return call("斐", zn.Num{Lit: "6"}) }},
+		{"阿22", 0, func(a []zn.Expr) zn.Expr { return call("阿", zn.Num{Lit: "2"}, zn.Num{Lit: "2"}) }},
+		{"探3", 0, func(a []zn.Expr) zn.Expr { return call("探", zn.Num{Lit: "3"}) }},
+		{"Q1之X自增", 1, func(a []zn.Expr) zn.Expr { return mc1(zn.Member{Root: zn.Var{Name: "Q1"}, Name: "X"}, "自增", a[0]) }},
+		{"Q1升", 0, func(a []zn.Expr) zn.Expr { return mc1(zn.Var{Name: "Q1"}, "升") }},
+		{"Q2之X", 0, func(a []zn.Expr) zn.Expr { return zn.Member{Root: zn.Var{Name: "Q2"}, Name: "X"} }},
+		{"O之数自减", 1, func(a []zn.Expr) zn.Expr { return mc1(zn.Member{Root: O, Name: "数"}, "自减", a[0]) }},
 		{"新建点+2", 2, func(a []zn.Expr) zn.Expr { return zn.Member{Root: zn.New{Class: "点", Args: []zn.Expr{a[0], a[1]}}, Name: "X"} }},
 	}
 }
@@ -204,7 +230,8 @@ func (f c08Family) build(k int64) *zn.Program {
 		body = append(body, g.stmt(int(x%c08NStmt), e, i)...)
 	}
 	O, P := zn.Var{Name: "O"}, zn.Var{Name: "P"}
-	body = append(body, zn.ExprStmt{E: zn.Call{Name: "显示", Args: []zn.Expr{zn.Str{Val: "终"}, zn.Member{Root: O, Name: "数"}, zn.Member{Root: O, Name: "表"}, zn.Member{Root: P, Name: "数"}, zn.Member{Root: P, Name: "表"}}}})
+	body = append(body, zn.ExprStmt{E: zn.Call{Name: "显示", Args: []zn.Expr{zn.Str{Val: "终"}, zn.Member{Root: O, Name: "数"}, zn.Member{Root: O, Name: "表"}, zn.Member{Root: P, Name: "数"}, zn.Member{Root: P, Name: "表"},
+		zn.Member{Root: zn.Var{Name: "Q1"}, Name: "X"}, zn.Member{Root: zn.Var{Name: "Q2"}, Name: "X"}, zn.Member{Root: zn.New{Class: "点"}, Name: "X"}}}})
 	return &zn.Program{Body: body}
 }
 
@@ -213,7 +240,7 @@ func c08Families(tier string) []c08Family {
 	var key []c08Form
 	for _, f := range all {
 		switch f.name {
-		case "一", "二", "二-1", "O加", "O推", "O访P", "O试P", "O无", "O之数", "P之表", "O加加", "新建型":
+		case "一", "二", "二-1", "O加", "O推", "O访P", "O试P", "O无", "O之数", "P之表", "O加加", "新建型", "Q1升", "新建点", "斐6":
 			key = append(key, f)
 		}
 	}
@@ -274,7 +301,7 @@ func init() {
 	mc.Register(&mc.Check{
 		ID:    "C08",
 		Level: "exploration",
-		Rule: "E1 exhaustive by rank/unrank: every program of m statements (显示 e | O之数 = e | 令N = e | （一：e）得到R | {e}) whose expressions e range over ALL call/object expressions up to the depth bound built from 27 forms (methods of arity 0/1/2, arity -1/+1 mismatches, recursion, methods of two instances of a type with scalar + list defaults and a constructor, 其 reads/writes, a method calling another object's method and then reading 其, a method whose nested call fails and is handled, 其自身, unknown method / property / function, chained 以…（…）、（…）, a built-in number method, 新建 with matching / missing / surplus arguments) with every leaf wrapped in a tracing call; final observation of both instances. Oracle: reference interpreter (ordered trace incl. argument evaluation order, error-ness). Distinct by construction; all non-trivial.",
+		Rule: "E1 exhaustive by rank/unrank: every program of m statements (显示 e | O之数 = e | 令N = e | （一：e）得到R | {e}) whose expressions e range over ALL call/object expressions up to the depth bound built from 34 forms (methods of arity 0/1/2, recursion that re-enters one two-argument call expression while its later arguments are being evaluated (Fibonacci, Ackermann, a traced descent), a type whose default number is only ever changed in place (自增 through 其 and from outside, two instances plus fresh ones), in-place 自减 on a property, arity -1/+1 mismatches, recursion, methods of two instances of a type with scalar + list defaults and a constructor, 其 reads/writes, a method calling another object's method and then reading 其, a method whose nested call fails and is handled, 其自身, unknown method / property / function, chained 以…（…）、（…）, a built-in number method, 新建 with matching / missing / surplus arguments) with every leaf wrapped in a tracing call; final observation of both instances. Oracle: reference interpreter (ordered trace incl. argument evaluation order, error-ness). Distinct by construction; all non-trivial.",
 		Assumptions: []string{
 			"reference interpreter (manual ch.8) is the oracle; a method ending without 输出 is not asserted (none generated)",
 			"error codes are not compared across the call boundary",
